@@ -77,8 +77,8 @@ def parser() -> argparse.ArgumentParser:
         "--plot_relative_time", action="store_true",
         help="show timestamps relative to the start of the reference")
     output_opts.add_argument(
-        "--plot_mode", help="the axes for  plot projection",
-        default=SETTINGS.plot_mode_default,
+        "--plot_mode", help="the axes for  plot projection "
+        "(default: the plot_mode_default setting)", default=None,
         choices=["xy", "xz", "yx", "yz", "zx", "zy", "xyz"])
     output_opts.add_argument(
         "--ros_map_yaml", help="yaml file of an ROS 2D map image (.pgm/.png)"
